@@ -193,10 +193,41 @@ def _sweep_worker(_):
     return stats, [(k, w + ' [reward-data length sweep]', (), s) for k, w, h, s in bad[:3]], len(bad)
 
 
+def long_payload(parent, label):
+    # 'm' = the main chain's next block, 's' / 't' = stale siblings of it (never extended)
+    return [], world.K[4 if label == 'm' else 5], 120 + {'m': 0, 's': 1, 't': 2}[label], {'cb_data': label.encode()}
+
+
+def _long_worker(_):
+    """size sweep: a 1,300-block chain with a stale sibling at every height (two below height 650, so that rows of equal
+    height fall on every parity), 2,600+ rows in all, written in three batches and read back: whatever the read path does in
+    pages / chunks / batches, every block must come back, parents first"""
+    ledger.setup()
+    uni = world.Universe(world.genesis_node(), long_payload, {'pow_ok': None})
+    hist = []
+    p = ()
+    for h in range(1, 1301):
+        hist.append(p + ('m',))
+        hist.append(p + ('s',))
+        if h == 650:
+            hist.append(p + ('t',))
+        p = p + ('m',)
+    stats = {'flushes': 0, 'reloads': 0, 'blocks_compared': 0, 'state_checks': 0, 'state_checks_skipped': 0, 'runs': 0}
+    bad = []
+    dbpath = os.path.join(os.getcwd(), 'c08-long.db')
+    stats['runs'] += 1
+    run_history(uni, tuple(hist), [len(hist) - 700, 400, 300], dbpath, stats, bad)
+    if os.path.exists(dbpath):
+        os.remove(dbpath)
+    return stats, [(k, w + ' [1,300-block chain with a stale sibling at every height]', (), s) for k, w, h, s in bad[:3]], len(bad)
+
+
 def _worker(arg):
     hists, wid = arg
     if hists == 'sweep':
         return _sweep_worker(None)
+    if hists == 'long':
+        return _long_worker(None)
     ledger.setup()
     uni = universe()
     stats = {'flushes': 0, 'reloads': 0, 'blocks_compared': 0, 'state_checks': 0, 'state_checks_skipped': 0, 'runs': 0}
@@ -245,7 +276,7 @@ def run(ctx):
         import random
         random.Random(ctx.seed).shuffle(hists)
     n = max(1, min(len(hists), ctx.ncpu * 4))
-    res = ctx.pmap(_worker, [('sweep', -1)] + [(hists[i::n], i) for i in range(n)])
+    res = ctx.pmap(_worker, [('long', -2), ('sweep', -1)] + [(hists[i::n], i) for i in range(n)])
     tot = {}
     for st, bad, nbad in res:
         for k, v in st.items():
@@ -266,7 +297,7 @@ def run(ctx):
         'rule': "histories = BFS over block trees (payload menu with forks including the same transaction / spending the same "
                 "output differently / multi-input multi-output), %d blocks beyond a 2-block prefix; each history under every "
                 "composition into flush batches (those with <= 2 batches also with the first batch handed over, discarded as after a rejected download, and handed over again); after every flush a restart and comparison of every block (bytes, order) and "
-                "of the rebuilt ledger state; plus a 201-block chain carrying reward data of every length 0..200" % depth,
+                "of the rebuilt ledger state; plus a 201-block chain carrying reward data of every length 0..200 and a 1,300-block chain with a stale sibling at every height (2,601 rows)" % depth,
     })
     ctx.assumptions.append("fidelity of acknowledged flushes with a clean shutdown; crash consistency of SQLite (journal_mode="
                            "MEMORY, synchronous=OFF) is not what the property asks")
@@ -290,7 +321,8 @@ def replay(data, ctx):
         return thrscen.replay(data)
     if not data['hist']:
         st, bad, n = _sweep_worker(None)
-        return [(k, w) for k, w, _, _ in bad]
+        st2, bad2, n2 = _long_worker(None)
+        return [(k, w) for k, w, _, _ in bad + bad2]
     uni = universe()
     hist = tuple(tuple(p) for p in data['hist'])
     stats = {'flushes': 0, 'reloads': 0, 'blocks_compared': 0, 'state_checks': 0, 'state_checks_skipped': 0, 'runs': 0}
